@@ -55,8 +55,8 @@ theorem absConn_withOut (c : Conn) (out : Rows) (os : Int) :
 def LoopRes (env : Env) (c : Conn) (rows : Rows) (gfb gfe cur : Int) : Prop :=
   ∃ (out' : Rows) (os : Int) (eff : List Effect) (gfb' gfe' : Int),
     resendLoop env srAll (rows.map (·.2)) gfb gfe c = ⟨.ok (gfb', gfe'), withOut c out' os, eff⟩ ∧
-    (∀ acc, resendRows (rows.map absRow) gfb (absConn c) acc =
-      ({ absConn c with out := out'.map absRow }, acc ++ (writesOf eff).map absFrame, gfb')) ∧
+    (∀ (ac : AConn) acc, ac.out = c.journal.out.map absRow → resendRows (rows.map absRow) gfb ac acc =
+      ({ ac with out := out'.map absRow }, acc ++ (writesOf eff).map absFrame, gfb')) ∧
     AllLt gfb' out' ∧ gfb ≤ gfb' ∧ gfb' ≤ cur ∧ gfe' ≤ cur ∧ deliveriesOf eff = [] ∧
     (∀ g ∈ writesOf eff, FrameGood c.sess.sender c.sess.target g) ∧
     (∃ new : Rows, out' = c.journal.out ++ new ∧ Sorted new ∧
@@ -102,7 +102,7 @@ theorem resendLoop_eval (env : Env) (cur : Int) :
     refine ⟨c.journal.out, c.journal.outSeq, [], gfb, gfe, ?_, ?_, hlt, Int.le_refl _, hb, he, rfl, by simp [writesOf], [], by simp,
       List.Pairwise.nil, by simp⟩
     · simp [resendLoop, withOut_self]
-    · intro acc; simp [resendRows, writesOf]; rfl
+    · intro ac acc hac; simp [resendRows, writesOf, ← hac]
   | cons r rest ih =>
     intro c gfb gfe hL hs hk hg hlt hb he
     obtain ⟨k, row⟩ := r
@@ -129,9 +129,9 @@ theorem resendLoop_eval (env : Env) (cur : Int) :
           (∃ new1 : Rows, o1 = c.journal.out ++ new1 ∧ Sorted new1 ∧
             ∀ r ∈ new1, gfb ≤ r.1 ∧ r.1 < k ∧ FrameGood c.sess.sender c.sess.target r.2 ∧
               r.2.get? tMsgSeqNum = some (pyStr r.1)) ∧
-          (∀ acc, (if gfb < k then
-              (((absConn c).pushAt gfb (.gapFill k)).1, acc ++ [((absConn c).pushAt gfb (.gapFill k)).2])
-            else (absConn c, acc)) = ({ absConn c with out := o1.map absRow }, acc ++ (writesOf e1).map absFrame)) := by
+          (∀ (ac : AConn) acc, ac.out = c.journal.out.map absRow → (if gfb < k then
+              ((ac.pushAt gfb (.gapFill k)).1, acc ++ [(ac.pushAt gfb (.gapFill k)).2])
+            else (ac, acc)) = ({ ac with out := o1.map absRow }, acc ++ (writesOf e1).map absFrame)) := by
         by_cases hlt' : gfb < k
         · have hfg := frameGood_build_gapFill c.sess env.stamp gfb k hL.l1 hL.l2 hL.l3
           refine ⟨c.journal.out ++ [(gfb, buildFrame c.sess env.stamp (gapFillMsg gfb k) gfb)], gfb,
@@ -145,13 +145,13 @@ theorem resendLoop_eval (env : Env) (cur : Int) :
             simp only [List.mem_singleton] at hr
             subst hr
             exact ⟨Int.le_refl _, hlt', hfg, get?_build_34 ..⟩
-          · intro acc
-            simp [hlt', AConn.pushAt, writesOf, absFrame_build_gapFill, absRow_build_gapFill, AKind.entry, absConn]
+          · intro ac acc hac
+            simp [hlt', AConn.pushAt, writesOf, absFrame_build_gapFill, absRow_build_gapFill, AKind.entry, hac]
         · refine ⟨c.journal.out, c.journal.outSeq, [], ?_, ?_, rfl, by simp [writesOf], ⟨[], by simp, List.Pairwise.nil,
             by simp⟩, ?_⟩
           · rw [if_neg hlt', withOut_self]; rfl
           · exact allLt_mono (by omega) hlt
-          · intro acc; simp [hlt', writesOf, absConn]
+          · intro ac acc hac; simp [hlt', writesOf, ← hac]
       obtain ⟨o1, os1, e1, hs1, hl1, hd1, hf1, ⟨new1, hn1, hsn1, hnew1⟩, habs1⟩ := hstep
       -- the retransmission
       have hL1 := loopConn_withOut hL o1 os1
@@ -177,13 +177,15 @@ theorem resendLoop_eval (env : Env) (cur : Int) :
         simp only [M.bind_apply, M.liftE_apply, prepareReplay_ok hgood]
         rw [show (withOut c o1 os1).journal.out = o1 from rfl] at hsend
         simp only [hsend, hr1, withOut_withOut, List.nil_append]
-      · intro acc
-        have h2 := hr2 (acc ++ (writesOf e1).map absFrame ++ [⟨k, .app (payloadOf row) true⟩])
-        have h1 := habs1 acc
+      · intro ac acc hac
+        have h2 := hr2 { ac with out := o1.map absRow ++ [(k, some (payloadOf row))] }
+          (acc ++ (writesOf e1).map absFrame ++ [⟨k, .app (payloadOf row) true⟩])
+          (by show _ = (o1 ++ [(k, frame)]).map absRow; simp [habsr])
+        have h1 := habs1 ac acc hac
         simp only [AConn.pushAt] at h1
         simp only [List.map_cons, absRow_of_appRow ha, resendRows, AConn.pushAt]
         rw [h1]
-        simp only [absConn_withOut, List.map_append, List.map_cons, List.map_nil, habsr, AKind.entry] at h2 ⊢
+        simp only [AKind.entry] at h2 ⊢
         rw [h2]
         simp [writesOf_append, writesOf, habsf, List.append_assoc]
       · simp [deliveriesOf_append, hd1, hr6, deliveriesOf]
@@ -223,8 +225,8 @@ theorem resendLoop_eval (env : Env) (cur : Int) :
           (by omega)
       refine ⟨out', os, eff, gfb', gfe', ?_, ?_, hr3, hr3', hr4, hr5, hr6, hr7, hr8⟩
       · rw [List.map_cons, resendLoop_cons_sess _ _ _ _ h34 h35 ha]; exact hr1
-      · intro acc
+      · intro ac acc hac
         simp only [List.map_cons, absRow_of_sessRow ha, resendRows]
-        exact hr2 acc
+        exact hr2 ac acc hac
 
 end AsyncFix.Link
